@@ -200,10 +200,11 @@ def run(ctx, anchors=None):
                     copies.add(fld)
     ctx.inst(copies == set(FIELDS), "R11.4", "tables-copied-at-setup", se.loc(), "both mock tables are copied into the session environment",
              "setup_environment copies only %s of the mock tables into the environment" % sorted(copies))
-    mains = [f for f in fb.funcs.values() if f.d.get("main") and f.file == "btcdeb.cpp"]
-    pc = [n for n in mains[0].nodes() if n["k"] == "mcall" and n.get("n") == "parse_pretend_valid_expr"]
-    used = bool(pc) and any(a.get("k") == "if" for a in mains[0].ancestors(pc[0]))
-    ctx.inst(used, "R11.4", "malformed-list-rejected", mains[0].loc(pc[0]) if pc else mains[0].loc(), "main exits when the pair list is rejected")
+    from . import common
+    drv = common.func_calling(fb, "btcdeb.cpp", "parse_pretend_valid_expr")
+    pc = [n for n in drv.nodes() if n["k"] == "mcall" and n.get("n") == "parse_pretend_valid_expr"]
+    used = bool(pc) and any(a.get("k") == "if" for a in drv.ancestors(pc[0]))
+    ctx.inst(used, "R11.4", "malformed-list-rejected", drv.loc(pc[0]) if pc else drv.loc(), "btcdeb exits when the pair list is rejected")
 
 
 MUTANTS = [
